@@ -1,4 +1,5 @@
 import Operon.Lemmas.C19
+import Operon.Gen.CascadeTable
 /-!
 # C19 — cascade gates fail closed and halted pipelines run nothing further
 
@@ -110,6 +111,15 @@ theorem c19_amplification_is_clamped_product (cfg : Cfg) (hmax : 1 ≤ cfg.maxAm
     (result cfg stages x).amplification = clampedProduct cfg 1 (result cfg stages x).results ∧
     (result cfg stages x).amplification ≤ cfg.maxAmp :=
   runFrom_amp cfg stages 0 ⟨x, 1, none⟩ hmax
+
+/-- **The loop body of the source is the model's.**  `Gen/CascadeTable.lean` is regenerated on every run by evaluating the
+    REAL `Cascade.run` on every one-stage pipeline and every two-stage pipeline of required stages over the behaviour
+    alphabet (checkpoint none/pass/reject/raise x processor ok/raise x handler none/ok/raise x required) x both
+    `halt_on_failure` settings — 1 248 runs; the model reproduces every row: success, final output, completed count,
+    blocked stage, per-stage status, the complete callback log and the amplification. -/
+theorem c19_stage_table_agrees :
+    ∃ rows, Gen.CascadeTable.table = some rows ∧ rows.length = 1248 ∧ rows.all rowAgrees = true := by
+  refine ⟨_, rfl, by decide +kernel, by decide +kernel⟩
 
 /-! ### Non-vacuity: concrete pipelines meeting the hypotheses -/
 
